@@ -62,6 +62,16 @@ CHECKS = {
             "Forged, truncated and random frames are put on the simulated air by an injector chip and received through the real node's radio model and update(); the harness observes exceptions, virtual time per update() against a budget derived from tx_timeout and the retry set-up (neighbours absent, so forwarding runs into its time-outs), queue entries and transmissions. The validity predicate sub-clause is a pure function evaluated directly (labelled direct_evaluation in evidence).",
             "Documented validity predicate as the reference; forwarding budget formula in evidence.assumptions.",
             "5 C15"),
+    "C16": ("exploration",
+            "deterministic simulation: small-scope sweep and seeded histories of address requests (direct/relayed), releases, save/load (JSON and binary, in-memory file system) and restart-with-only-the-file, injected through the real master's radio; invariants after every event",
+            "Request and release frames are forged by a scripted injector radio and handled by the real RF24Mesh master through its chip model and update(); the master's replies are inspected on the simulated air; file persistence runs on an in-memory file system bound to the module's open(), with 'MCU restart' as an event that keeps only the file. The oracle is a set of invariants (injectivity, lease validity, reply content/first hop, reuse, round trip), not a copy of the allocator.",
+            "No crash consistency of the file is claimed (exact round trip only).",
+            "5 C16"),
+    "C17": ("exploration",
+            "deterministic simulation: master + 1..12 joining mesh nodes as seeded-scheduled tasks (start offsets, MCU jitter, one speed class per run), API sequences per node, collisions arising from the schedule; separate lossy configuration",
+            "Joiners and master are real objects running as simulated tasks; safety clauses (valid address recorded under the ID in the master's table version in force, lookup answers consistent with a table version in force during the call, no exception at the master, table unchanged by lookups) are checked for every call; liveness-flavoured clauses (send reaches, release frees, check_connection, -1 only without answer) are enforced for calls that ran without any concurrent traffic, because the network is best-effort under cross traffic; 20 % of runs inject loss and keep only no-exception/termination/valid-or-None.",
+            "Timing envelope and speed-class restriction in evidence.assumptions; chip/air model M1-M4, M10.",
+            "5 C17"),
     "C14": ("exploration",
             "deterministic simulation of populated topologies (5..16 nodes as seeded-scheduled tasks with MCU jitter): multicasts from every sender class to every level; application logs, chip ACK ground truth and sniffer compared at quiescence",
             "Seeded populated topologies with per-node allow_multicast / one relaying node; after each multicast the set of application logs that hold it is compared with the level membership, the chip model tells whether any transmission requested an ACK and the sniffer whether any ACK appeared, and the relaying node's re-broadcast is checked on the air.",
